@@ -51,7 +51,7 @@ add("C14", True, "E1-enumerator", "exhaustive enumeration of legal line orders, 
 add("C15", True, "E2-explorer", "explicit-state BFS to fixpoint over the query alphabet (~30 queries) from several base states; state = bitwise digest of every reachable array/flag/id/list order",
     "BFS closes (fixpoint) so all interleavings of any length are covered; observable snapshot must be unchanged by every query and each query's value must be path-independent; optimize may change only free poses (+ first fixed flag).",
     "generic __dict__ walker defines 'all numeric state'", "DESIGN.md 4 C15")
-add("C16", False, "E1-enumerator", "exhaustive enumeration programs (14 custom error functions) x pose alphabets for the numerical Jacobian, and graph families for optimum equality with 5-point-Jacobian twins",
+add("C16", True, "E1-enumerator", "exhaustive enumeration programs (14 custom error functions) x pose alphabets for the numerical Jacobian, and graph families for optimum equality with 5-point-Jacobian twins",
     "Each numeric Jacobian is compared with a 5-point derivative at forward-difference accuracy; every graph of the family is optimised with numeric and with exact Jacobians and the optima compared.",
     "finite program family and alphabets; inside C05 radii", "DESIGN.md 4 C16")
 add("C17", True, "E1-enumerator", "exhaustive enumeration of all ordered pairs of an object pool x tolerances, all single-component perturbation magnitudes 1e-12..1e3 x tol, all discrete differences",
